@@ -22,8 +22,16 @@ def run_traced(name, src, debug=0, timeout=10.0):
     reg = registry()
     orig_run_rules = reg.run_rules
 
+    stack = []
+    emitted = []         # (emitting rule class, code, line, column) in emission order
+    res["emitted"] = emitted
+
     def run_rules(context, rule):
-        ret, read = orig_run_rules(context, rule)
+        stack.append(getattr(rule, "__name__", str(rule)))
+        try:
+            ret, read = orig_run_rules(context, rule)
+        finally:
+            stack.pop()
         if isinstance(rule, type) and issubclass(rule, Primary) and ret is True and cur["match"] is None:
             cur["match"] = (rule.__name__, read)
         return ret, read
@@ -48,6 +56,14 @@ def run_traced(name, src, debug=0, timeout=10.0):
                 cur["match"] = None
                 return orig_pop(stop)
             ctx.pop_tokens = pop_tokens
+            for meth in ("new_error", "new_warning"):
+                def wrap(orig):
+                    def w(errno, tkn):
+                        t = tkn if tkn is not None else (ctx.tokens[-1] if ctx.tokens else None)
+                        emitted.append([stack[-1] if stack else None, errno, t.pos[0] if t else None, t.pos[1] if t else None])
+                        return orig(errno, tkn)
+                    return w
+                setattr(ctx, meth, wrap(getattr(ctx, meth)))
             reg.run_rules = run_rules
             try:
                 reg.run(ctx)
